@@ -347,7 +347,32 @@ impl<'tcx> Ctx<'tcx> {
                 }
                 o
             }
-            GlobalAlloc::Static(did) => J::obj().with("static", J::s(self.def_str(did))),
+            GlobalAlloc::Static(did) => {
+                let mut o = J::obj().with("static", J::s(self.def_str(did)));
+                // an immutable static without interior mutability has exactly its initialiser's bytes
+                let immutable = matches!(tcx.def_kind(did), DefKind::Static { mutability, .. } if !mutability.is_mut());
+                let nested = matches!(tcx.def_kind(did), DefKind::Static { nested: true, .. });
+                let foreign = tcx.is_foreign_item(did);
+                if immutable && !foreign && !nested {
+                    let ty = tcx.type_of(did).instantiate_identity().skip_norm_wip();
+                    let tls = tcx.is_thread_local_static(did);
+                    if ty.is_freeze(tcx, self.env) && !tls {
+                        if let Ok(a) = tcx.eval_static_initializer(did) {
+                            let a = a.inner();
+                            let len = a.len();
+                            if a.provenance().ptrs().is_empty() {
+                                let bytes = a.inspect_with_uninit_and_ptr_outside_interpreter(0..len);
+                                let mut hex = String::with_capacity(len * 2);
+                                for b in bytes {
+                                    hex.push_str(&format!("{:02x}", b));
+                                }
+                                o.set("bytes", J::s(hex));
+                            }
+                        }
+                    }
+                }
+                o
+            }
             GlobalAlloc::Function { instance } => {
                 self.enqueue(instance);
                 J::obj().with("fn", J::s(self.inst_key(instance)))
